@@ -432,6 +432,23 @@ def check_lookups(chk, case, res, pd, unpacked, vars_, sums):
         want = [sums[i] for i in want_idx]
         if list(got) != want:
             chk.fail(("get_result_values_list",), dict(case, fixed=fixed), observed=got, expected=want)
+        # the other look-up entry point: confidence intervals of precisely the matching combinations
+        getter = getattr(res, "get_result_values_confidence_intervals", None)
+        if getter is not None:
+            try:
+                want_ci = [np.asarray(res["v"][i].get_confidence_interval(95.0), dtype=float) for i in want_idx]
+            except Exception:  # noqa  (no interval defined for these results: nothing to compare)
+                want_ci = None
+            if want_ci is not None:
+                chk.count("eval_lookups")
+                got_ci = [np.asarray(x, dtype=float) for x in getter("v", 95.0, fixed)]
+                same = len(got_ci) == len(want_ci) and all(
+                    a.shape == b.shape and np.allclose(a, b, rtol=1e-12, atol=0.0, equal_nan=True)
+                    for a, b in zip(got_ci, want_ci))
+                if not same:
+                    chk.fail(("get_result_values_confidence_intervals",), dict(case, fixed=fixed),
+                             observed="%d intervals %r" % (len(got_ci), [x.tolist() for x in got_ci[:4]]),
+                             expected="%d intervals %r" % (len(want_ci), [x.tolist() for x in want_ci[:4]]))
 
 
 # ----------------------------------------------------------------------
